@@ -21,6 +21,7 @@ import BlueskyVerif.Gen.Ast
 
 namespace BlueskyVerif.C22
 open BlueskyVerif.Gen
+set_option linter.unusedSectionVars false
 
 section
 variable {M R V E : Type} [Inhabited R] [DecidableEq R] [Inhabited V] [PyExc E]
@@ -29,61 +30,10 @@ variable {M R V E : Type} [Inhabited R] [DecidableEq R] [Inhabited V] [PyExc E]
 def st (cfg : TryCfg M R V E) (plan : Beh M R V E) (hist : List (Inp R E)) : TrySt M R V E :=
   Machine.state (tryStep cfg plan) ⟨.init, []⟩ hist
 
-def isFinalStart : Ev V E → Bool
-  | .finalStart => true
-  | _ => false
-def isElseStart : Ev V E → Bool
-  | .elseStart => true
-  | _ => false
-def isExceptStart : Ev V E → Bool
-  | .exceptStart _ => true
-  | _ => false
-def isPauseStart : Ev V E → Bool
-  | .pauseStart => true
-  | _ => false
-def isBodyEnd : Ev V E → Bool
-  | .bodyEnd _ => true
-  | _ => false
-
 /-- The log always has the shape of a Python try statement: it is exactly the log of the path
     recorded in the state (`TryInv`, Lemmas/C22.lean), and that path is possible for `cfg`. -/
 theorem C22_log_like_python (cfg : TryCfg M R V E) (plan : Beh M R V E) (hist : List (Inp R E)) :
     TryInv cfg (st cfg plan hist) := tryInv_state cfg plan hist
-
-/-- how often each piece was started, as a function of the log shape -/
-private theorem counts (cfg : TryCfg M R V E) (s : TrySt M R V E) (h : TryInv cfg s) :
-    s.log.countP isFinalStart ≤ 1 ∧ s.log.countP isElseStart ≤ 1 ∧
-    s.log.countP isExceptStart ≤ 1 ∧ s.log.countP isPauseStart ≤ 1 ∧
-    s.log.countP isBodyEnd ≤ 1 := by
-  obtain ⟨ph, log⟩ := s
-  cases ph with
-  | init => simp [TryInv] at h; simp [h]
-  | body p => simp [TryInv] at h; simp [h]
-  | pause e p =>
-    simp [TryInv] at h
-    simp [h.1, isFinalStart, isElseStart, isExceptStart, isPauseStart, isBodyEnd]
-  | exc e pz p =>
-    simp [TryInv] at h
-    rcases pz with _ | o <;>
-      simp [h.1, pzLog, isFinalStart, isElseStart, isExceptStart, isPauseStart, isBodyEnd]
-  | els v p =>
-    simp [TryInv] at h
-    simp [h.1, isFinalStart, isElseStart, isExceptStart, isPauseStart, isBodyEnd]
-  | fin path p =>
-    simp [TryInv] at h
-    rcases path with v | ⟨v, o⟩ | e | ⟨e, _ | pz, _ | ex⟩ <;>
-      simp [h.1, Path.log, pzLog, exLog, isFinalStart, isElseStart, isExceptStart, isPauseStart,
-        isBodyEnd]
-  | done d =>
-    simp [TryInv] at h
-    rcases d with e | path | ⟨path, o⟩
-    · simp [h.1, DoneInfo.log, isFinalStart, isElseStart, isExceptStart, isPauseStart, isBodyEnd]
-    · rcases path with v | ⟨v, o⟩ | e | ⟨e, _ | pz, _ | ex⟩ <;>
-        simp [h.1, DoneInfo.log, Path.log, pzLog, exLog, isFinalStart, isElseStart, isExceptStart,
-          isPauseStart, isBodyEnd]
-    · rcases path with v | ⟨v, o⟩ | e | ⟨e, _ | pz, _ | ex⟩ <;>
-        simp [h.1, DoneInfo.log, Path.log, pzLog, exLog, isFinalStart, isElseStart, isExceptStart,
-          isPauseStart, isBodyEnd]
 
 /-- **The final plan runs exactly once on every exit path.**  After any history: it has been
 started at most once; never before the wrapped plan ended, and never when that end was a
@@ -99,7 +49,7 @@ theorem C22_final_once (cfg : TryCfg M R V E) (plan : Beh M R V E) (hist : List 
       s.log.countP isFinalStart = 1) := by
   intro s
   have h := C22_log_like_python cfg plan hist
-  refine ⟨(counts cfg s h).1, ?_, ?_⟩
+  refine ⟨(tryInv_counts cfg s h).1, ?_, ?_⟩
   · intro hm
     change TryInv cfg s at h
     obtain ⟨ph, log⟩ := s
@@ -131,7 +81,230 @@ theorem C22_final_once (cfg : TryCfg M R V E) (plan : Beh M R V E) (hist : List 
     · exact absurd rfl (hnc e)
     · simp [DoneInfo.ok] at h; simp [h.2.2] at hf
     · rcases path with v | ⟨v, o⟩ | e | ⟨e, _ | pz, _ | ex⟩ <;>
-        simp [h.1, DoneInfo.log, Path.log, pzLog, exLog, isFinalStart]
+        simp [h.1, DoneInfo.log, Path.log, pzLog, exLog, isFinalStart, List.countP_cons]
+
+/-- **Not when the plan is closed.**  (a) While the wrapped plan runs, a GeneratorExit `e` thrown
+into the wrapper (by `close()` or `throw`) that the plan lets through (`p.close()` returns) ends
+the wrapper at once with `e`: nothing else is started; for `close()` the caller sees a normal
+return.  (b) After any history, if the wrapped plan ended with an exception that the
+GeneratorExit clause takes (thrown in or raised by the plan itself), the log is just that one
+event and the wrapper is finished: no final / except / else plan ever ran. -/
+theorem C22_not_on_close (cfg : TryCfg M R V E) (plan : Beh M R V E) :
+    (∀ (p : Pos M R V E) (log : List (Ev V E)) (e : E), isGenExit e = true → p.close.1 = none →
+      dispatch cfg.clauses e = .closed →
+      tryStep cfg plan ⟨.body p, log⟩ (.throw e)
+        = (.raise e, ⟨.done (.closed e), log ++ [.bodyEnd (.exc e)]⟩) ∧
+      closeObs (tryStep cfg plan ⟨.body p, log⟩ (.throw e)).1 = none) ∧
+    (∀ (hist : List (Inp R E)) (e : E),
+      (st cfg plan hist).log.head? = some (.bodyEnd (.exc e)) → dispatch cfg.clauses e = .closed →
+      (st cfg plan hist).log = [.bodyEnd (.exc e)] ∧ (st cfg plan hist).ph = .done (.closed e)) := by
+  constructor
+  · intro p log e he hc hd
+    have h1 : yfStep p (.throw e) = .raised e := by
+      simp only [yfStep, he, ↓reduceIte]
+      cases hcl : p.close with
+      | mk o p' => rw [hcl] at hc; simp only at hc; subst hc; rfl
+    have h2 : tryStep cfg plan ⟨.body p, log⟩ (.throw e)
+        = (.raise e, ⟨.done (.closed e), log ++ [.bodyEnd (.exc e)]⟩) := by
+      simp [tryStep, h1, onBody, hd, tryFinish, DoneInfo.result, Pending.toOut]
+    exact ⟨h2, by rw [h2]; simp [closeObs, he]⟩
+  · intro hist e hh hd
+    have h := C22_log_like_python cfg plan hist
+    generalize st cfg plan hist = s at *
+    obtain ⟨ph, log⟩ := s
+    cases ph with
+    | init => simp [TryInv] at h; simp [h] at hh
+    | body p => simp [TryInv] at h; simp [h] at hh
+    | pause e' p => simp [TryInv] at h; simp [h.1] at hh; subst hh; simp [hd] at h
+    | exc e' pz p => simp [TryInv] at h; simp [h.1] at hh; subst hh; simp [hd] at h
+    | els v p => simp [TryInv] at h; simp [h.1] at hh
+    | fin path p =>
+      simp [TryInv] at h
+      rcases path with v | ⟨v, o⟩ | e' | ⟨e', pz, ex⟩ <;>
+        simp [h.1, Path.log, Path.ok] at h hh <;> subst hh <;> simp [hd] at h
+    | done d =>
+      simp [TryInv] at h
+      rcases d with e' | path | ⟨path, o⟩
+      · simp [h.1, DoneInfo.log] at hh ⊢; subst hh; simp [DoneInfo.log]
+      · rcases path with v | ⟨v, o⟩ | e' | ⟨e', pz, ex⟩ <;>
+          simp [h.1, DoneInfo.log, DoneInfo.ok, Path.log, Path.ok] at h hh <;> subst hh <;>
+          simp [hd] at h
+      · rcases path with v | ⟨v, o⟩ | e' | ⟨e', pz, ex⟩ <;>
+          simp [h.1, DoneInfo.log, DoneInfo.ok, Path.log, Path.ok] at h hh <;> subst hh <;>
+          simp [hd] at h
+
+/-- The `except` clauses of the three wrappers (extracted from the source): all three treat every
+GeneratorExit (incl. PlanHalt) as "closed"; finalize_wrapper's handler (pause_for_debug, re-raise)
+takes everything else; contingency_wrapper's handler takes exactly the `Exception`s (so also
+RequestStop / RequestAbort) and lets other BaseExceptions go straight to `finally`;
+finalize_decorator has no handler. -/
+theorem C22_dispatch_wrappers (e : E) :
+    (isGenExit e = true → dispatch Generated.fwClauses e = .closed ∧
+      dispatch Generated.cwClauses e = .closed ∧ dispatch Generated.fdClauses e = .closed) ∧
+    (isGenExit e = false → dispatch Generated.fwClauses e = .handled ∧
+      dispatch Generated.fdClauses e = .uncaught ∧
+      (isException e = true → dispatch Generated.cwClauses e = .handled) ∧
+      (isException e = false → dispatch Generated.cwClauses e = .uncaught)) := by
+  constructor
+  · intro h
+    simp [dispatch, firstMatch, Generated.fwClauses, Generated.cwClauses, Generated.fdClauses,
+      Clause.matches, h]
+  · intro h
+    refine ⟨?_, ?_, ?_, ?_⟩ <;> (try intro h') <;>
+      simp [dispatch, firstMatch, Generated.fwClauses, Generated.cwClauses, Generated.fdClauses,
+        Clause.matches, *]
+
+/-- **except / else plans run exactly when Python would run them.**  After any history: the else
+plan has started only if the wrapped plan returned, `except_plan(e)` only if the wrapped plan
+raised that very `e` and the handler clause catches it; never both; each at most once; and they HAVE
+started as soon as the wrapped plan has returned (else) / raised a caught exception and `pause()`,
+if any, has ended normally (except). -/
+theorem C22_except_else_like_python (cfg : TryCfg M R V E) (plan : Beh M R V E)
+    (hist : List (Inp R E)) :
+    let s := st cfg plan hist
+    (Ev.elseStart ∈ s.log → (∃ v, s.log.head? = some (.bodyEnd (.ret v))) ∧
+      s.log.countP isExceptStart = 0) ∧
+    (∀ e, Ev.exceptStart e ∈ s.log → s.log.head? = some (.bodyEnd (.exc e)) ∧
+      dispatch cfg.clauses e = .handled ∧ Ev.elseStart ∉ s.log) ∧
+    s.log.countP isElseStart ≤ 1 ∧ s.log.countP isExceptStart ≤ 1 ∧
+    (∀ v, s.log.head? = some (.bodyEnd (.ret v)) → cfg.elsePlan.isSome → Ev.elseStart ∈ s.log) ∧
+    (∀ e, s.log.head? = some (.bodyEnd (.exc e)) → dispatch cfg.clauses e = .handled →
+      cfg.exceptPlan.isSome → (cfg.pausePlan.isNone ∨ ∃ u, Ev.pauseEnd (.ret u) ∈ s.log) →
+      Ev.exceptStart e ∈ s.log) := by
+  intro s
+  have h : TryInv cfg s := C22_log_like_python cfg plan hist
+  have hc := tryInv_counts cfg s h
+  refine ⟨?_, ?_, hc.2.1, hc.2.2.1, ?_, ?_⟩
+  all_goals
+    clear hc
+    obtain ⟨ph, log⟩ := s
+    cases hpp : cfg.pausePlan <;> cases hxp : cfg.exceptPlan <;> cases hep : cfg.elsePlan <;>
+    cases ph with
+    | init => simp [TryInv] at h; simp [h]
+    | body p => simp [TryInv] at h; simp [h]
+    | pause e p => simp [TryInv, hpp] at h <;> simp_all
+    | exc e pz p =>
+      rcases pz with _ | u | x <;> simp [TryInv, hpp, hxp, pzLog, pzOk] at h <;>
+        simp_all [isExceptStart, List.countP_cons]
+    | els v p => simp [TryInv, hep] at h <;> simp_all [isExceptStart, List.countP_cons]
+    | fin path p =>
+      rcases path with v | ⟨v, o⟩ | e | ⟨e, _ | u | x, _ | ex⟩ <;>
+        simp [TryInv, Path.log, Path.ok, pzLog, exLog, pzOk, hpp, hxp, hep] at h <;>
+        simp_all [isExceptStart, List.countP_cons]
+    | done d =>
+      rcases d with e | path | ⟨path, o⟩
+      · simp [TryInv, DoneInfo.log, DoneInfo.ok] at h <;> simp_all [isExceptStart, List.countP_cons]
+      · rcases path with v | ⟨v, o⟩ | e | ⟨e, _ | u | x, _ | ex⟩ <;>
+          simp [TryInv, DoneInfo.log, DoneInfo.ok, Path.log, Path.ok, pzLog, exLog, pzOk, hpp, hxp,
+            hep] at h <;>
+          simp_all [isExceptStart, List.countP_cons]
+      · rcases path with v | ⟨v, o⟩ | e | ⟨e, _ | u | x, _ | ex⟩ <;>
+          simp [TryInv, DoneInfo.log, DoneInfo.ok, Path.log, Path.ok, pzLog, exLog, pzOk, hpp, hxp,
+            hep] at h <;>
+          simp_all [isExceptStart, List.countP_cons]
+
+/-- **The return value or exception is preserved.**  After any history, whatever the caller does
+next to a wrapper that has not finished: either the wrapper yields, or it finishes, and then what
+it returns / raises is `DoneInfo.result` of the path it took -- Python's rule for a try statement
+(`C22_result_cases` spells it out) -- and its log is the complete log of that path. -/
+theorem C22_result_preserved (cfg : TryCfg M R V E) (plan : Beh M R V E) (hist : List (Inp R E))
+    (i : Inp R E) (hnd : (st cfg plan hist).isDone = false) :
+    let r := tryStep cfg plan (st cfg plan hist) i
+    (∀ d, r.2.ph = .done d →
+      r.1 = (d.result cfg.autoRaise).toOut ∧ r.2.log = d.log ∧ d.ok cfg) ∧
+    (r.2.isDone = false → r.1.isYld = true) := by
+  intro r
+  have h := tryStep_ok cfg plan _ i (C22_log_like_python cfg plan hist) hnd
+  change ResOk cfg r at h
+  obtain ⟨h1, h2⟩ := h
+  generalize r = r' at *
+  obtain ⟨out, ph, log⟩ := r'
+  cases ph <;> simp_all [TryInv, TrySt.isDone]
+
+/-- Python's rule, path by path (`ar` = auto_raise; `u`, `u'` are the values the final / else /
+pause plans return, which are discarded):
+1. an exception raised by the final plan replaces everything;
+2. the wrapped plan returned `v` (else plan, if any, completed): the wrapper returns `v`;
+3. the else plan raised `x`: `x`;
+4. the wrapped plan raised `e`, no clause handles it, or there is no except plan: `e` is re-raised;
+5. `except_plan(e)` returned `w`: `e` is re-raised when auto_raise, else the wrapper RETURNS `w`;
+6. `except_plan(e)` raised `x`: `x`;   7. `pause()` raised `x`: `x`;
+8. closed: the GeneratorExit itself. -/
+theorem C22_result_cases (ar : Bool) (v u u' w : V) (e x : E) (path : Path V E)
+    (pz : Option (Pending V E)) (hpz : pzOk pz = true) :
+    (DoneInfo.final path (.exc x)).result ar = .exc x ∧
+    (DoneInfo.final (.ret v : Path V E) (.ret u)).result ar = .ret v ∧
+    (DoneInfo.noFinal (.ret v : Path V E)).result ar = (.ret v : Pending V E) ∧
+    (DoneInfo.final (.retElse v (.ret u') : Path V E) (.ret u)).result ar = .ret v ∧
+    (DoneInfo.final (.retElse v (.exc x)) (.ret u)).result ar = .exc x ∧
+    (DoneInfo.final (.uncaught e) (.ret u)).result ar = .exc e ∧
+    (DoneInfo.final (.handled e pz none) (.ret u)).result ar = .exc e ∧
+    (DoneInfo.final (.handled e pz (some (.ret w))) (.ret u)).result ar
+      = (if ar then .exc e else .ret w) ∧
+    (DoneInfo.final (.handled e pz (some (.exc x))) (.ret u)).result ar = .exc x ∧
+    (DoneInfo.final (.handled e (some (.exc x)) none) (.ret u)).result ar = .exc x ∧
+    (DoneInfo.closed e : DoneInfo V E).result ar = .exc e := by
+  rcases pz with _ | u'' | x' <;> simp [pzOk] at hpz <;>
+    simp [DoneInfo.result, Path.pending]
 
 end
+
+/-! ### Non-vacuity: the machine on concrete plans (from the AST grammar)
+
+```
+def plan():      r = yield Msg('null', 1); raise E1(2)
+def cleanup():   yield Msg('null', 30)
+def on_error():  r = yield Msg('null', 40); return r
+```
+-/
+
+def planA : Stmt := .seq (.yield 1 true) (.raise .exc1 2)
+def cleanupA : Stmt := .yield 30 false
+def onErrorA : Stmt := .seq (.yield 40 true) (.ret .var)
+
+/-- pause() -/
+def pauseB : Beh Msg Val Val Exc := Beh.single ⟨[6], 777⟩
+
+def cfgA (autoRaise : Bool) : TryCfg Msg Val Val Exc :=
+  { clauses := Generated.cwClauses, pausePlan := none,
+    exceptPlan := some (fun _ => interp [4] onErrorA), autoRaise := autoRaise, elsePlan := none,
+    finalPlan := some (interp [3] cleanupA) }
+
+def payloads (t : List (Obs Msg Val Exc)) : List (Obs Nat Val Exc) :=
+  t.map fun o => match o with
+    | .yld m => .yld m.payload
+    | .ret v => .ret v
+    | .raise e => .raise e
+    | .closed => .closed
+
+/-- auto_raise=False: the except plan's value is returned, after the cleanup ran once -/
+example : payloads (run (tryWrap (cfgA false) (interp [0] planA))
+      [.send none, .send (some 7), .send (some 8), .send (some 9)])
+    = [.yld 1, .yld 40, .yld 30, .ret (some 8)] := by decide
+
+/-- auto_raise=True: the original exception is re-raised, after the cleanup ran once -/
+example : payloads (run (tryWrap (cfgA true) (interp [0] planA))
+      [.send none, .send (some 7), .send (some 8), .send (some 9)])
+    = [.yld 1, .yld 40, .yld 30, .raise ⟨.exc1, 2⟩] := by decide
+
+/-- RequestStop thrown in while the wrapped plan runs: except plan, cleanup, re-raise -/
+example : payloads (run (tryWrap (cfgA true) (interp [0] planA))
+      [.send none, .throw ⟨.requestStop, 6⟩, .send none, .send none])
+    = [.yld 1, .yld 40, .yld 30, .raise ⟨.requestStop, 6⟩] := by decide
+
+/-- closed while the wrapped plan runs: no cleanup -/
+example : payloads (run (tryWrap (cfgA true) (interp [0] planA)) [.send none, .close])
+    = [.yld 1, .closed] := by decide
+
+/-- the log of the first run -/
+example : (st (cfgA false) (interp [0] planA)
+      [.send none, .send (some 7), .send (some 8), .send (some 9)]).log
+    = [.bodyEnd (.exc ⟨.exc1, 2⟩), .exceptStart ⟨.exc1, 2⟩, .exceptEnd (.ret (some 8)),
+       .finalStart, .finalEnd (.ret none)] := by decide
+
+/-- finalize_wrapper with pause_for_debug: pause, then cleanup, then the exception -/
+example : payloads (run (finalizeWrapper pauseB true (interp [3] cleanupA) (interp [0] planA))
+      [.send none, .send (some 7), .send none, .send none])
+    = [.yld 1, .yld 777, .yld 30, .raise ⟨.exc1, 2⟩] := by decide
+
 end BlueskyVerif.C22
